@@ -144,9 +144,16 @@ def _consume_sites(facts, tr, W, adt):
     """(bb, idx, field, kind) of consume-writes: field +=/-= 1, or push on a container field"""
     out = []
     g = graph(W)
-    for (b, i, j, s) in [w for f in facts.adt(adt)["variants"][0]["fields"] for w in field_writes(facts, adt, f["name"])]:
-        if b is not W:
-            continue
+    # writes to a field of the window state, or to a field of a private struct the state groups its bookkeeping in
+    # (`self.buckets.current += 1`): the projection path passes through the state's own type
+    ws_ = []
+    for i_, blk_ in enumerate(W.blocks):
+        for j_, s_ in enumerate(blk_["stmts"]):
+            if s_["k"] == "assign" and s_["lhs"]["p"]:
+                pr_ = s_["lhs"]["p"]
+                if isinstance(pr_[-1], dict) and pr_[-1].get("n") and any(isinstance(e_, dict) and e_.get("adt") == adt for e_ in pr_):
+                    ws_.append((W, i_, j_, s_))
+    for (b, i, j, s) in ws_:
         val = peel(tr.stmt_value(W, i, j))
         fname = s["lhs"]["p"][-1]["n"]
         v = val
@@ -342,7 +349,7 @@ def _check_window(facts, tr, rep, rl, W):
                     if recv[0] == "field" and recv[3] == adt and recv[2] == fname:
                         nref += 1
                         rep.saw(b)
-                        _refill_ob(facts, tr, rep, W, b, c.bb, None, short, fname, nref)
+                        _refill_ob(facts, tr, rep, W, b, c.bb, None, short, fname, nref, call=c)
     # window start: written with the instant the guard compared
     nstart = 0
     has_start = False
@@ -400,11 +407,39 @@ def _time_derived(tr, node):
     return bool(calls_in(tr, node, lambda c: c.def_ in TIME_FNS))
 
 
-def _refill_ob(facts, tr, rep, W, b, i, j, short, fname, n):
+def _timed_prefix_len(facts, tr, b, c):
+    """`deque.drain(..n)` / `truncate` where n = entries.iter().take_while(|t| <age test>).count(): the removal is bounded by
+    the number of entries that passed an elapsed-time test, one by one"""
+    for a in c.args[1:]:
+        node = tr.expand(tr.operand(b, a, c.loc), upvars=True)
+        for cnt in calls_in(tr, node, lambda x: x.name == "count"):
+            src = peel(tr.expand(tr.operand(cnt.g.b, cnt.args[0], cnt.loc)))
+            if src[0] != "call" or tr.call_of(src).name not in ("take_while", "filter") or len(tr.call_of(src).args) < 2:
+                continue
+            fc = tr.call_of(src)
+            clo = peel(tr.expand(tr.operand(fc.g.b, fc.args[1], fc.loc)))
+            if clo[0] != "agg":
+                continue
+            cb_ = facts.bodies.get(tr.agg_of(clo)[1].get("def"))
+            if cb_ is None:
+                continue
+            for (_i, _j, nd) in ret_assigns(tr, cb_):
+                for lf in leaves(nd):
+                    cm = normalise_cmp(tr, peel(lf))
+                    if cm and any(calls_in(tr, side, lambda x: x.def_ in ("std::time::Instant::duration_since", "std::time::Instant::elapsed",
+                                                                          "std::time::Instant::saturating_duration_since",
+                                                                          "std::time::Instant::checked_duration_since")) for side in (cm[1], cm[2])):
+                        return cnt
+    return None
+
+
+def _refill_ob(facts, tr, rep, W, b, i, j, short, fname, n, call=None):
     e = _time_guarded(tr, b, i)
     how = None
     if e is not None:
         how = "dominated by the elapsed-time guard at %s" % graph(b).where(e["bb"])
+    elif call is not None and call.name in ("drain", "truncate", "split_off") and _timed_prefix_len(facts, tr, b, call) is not None:
+        how = "limited to the leading entries that pass an elapsed-time test (%s)" % _timed_prefix_len(facts, tr, b, call).where()
     else:
         callers = tr.callers(b.def_)
         if callers and all(_time_guarded(tr, c.g.b, c.bb) is not None for c in callers):
